@@ -79,7 +79,7 @@ let addr_op tok =
 
 let radix_op tok =
   match split ',' tok with
-  | ["P"; k; p] | ["E"; k; p] | ["F"; k; p] | ["H"; k; p] | ["G"; k; p] -> RPush (n_of_hex k, n_ p)
+  | ["P"; k; p] | ["E"; k; p] | ["F"; k; p] | ["H"; k; p] | ["G"; k; p] | ["V"; k; p] | ["U"; k; p] -> RPush (n_of_hex k, n_ p)
   | ["T"] -> RTop
   | ["O"] -> RPop
   | ["W"] -> RSwap
@@ -97,7 +97,7 @@ let () =
       let line = input_line ic in
       match List.filter (fun s -> s <> "") (split ' ' line) with
       | "dary" :: d :: rv :: toks ->
-        let d = n_ d and rv = rv = "1" in
+        let d = n_ d and rv = (rv = "1" || rv = "5" || rv = "6") in
         let show st = let ((sz, tp), sane) = tobs d rv st in
           Printf.sprintf "%d:%s:%d" (int_of_nat sz) (show_top tp) (if sane then 1 else 0) in
         let size st = List.length (snd st) in
@@ -127,7 +127,7 @@ let () =
         print_endline (String.concat " " (List.rev !outs))
       | "addr" :: d :: rv :: kt :: nk :: toks ->
         let np = nat_of_int (if kt = "8" then 255 else 300) in   (* see checks/C13.py assumptions *)
-        let d = n_ d and rv = rv = "1" and nk = n_ nk in
+        let d = n_ d and rv = (rv = "1" || rv = "5" || rv = "6") and nk = n_ nk in
         let show st = let (((sz, tp), sane), mem) = aobs d np nk rv st in
           Printf.sprintf "%d:%s:%d:%s" (int_of_nat sz) (show_top tp) (if sane then 1 else 0)
             (String.concat "" (List.map (fun b -> if b then "1" else "0") mem)) in
